@@ -100,7 +100,7 @@ HT_KINDS = {"u32": 1, "u64": 2}
 def ht_units(order, kind, tier):
     sfx = "%s.o%d" % (kind, order)
     defs = ["HT_ORDER=%d" % order, "HT_KIND=%d" % HT_KINDS[kind]]
-    common = dict(defines=defs, tier=tier, solver="kissat", unwind=33, kind="proof",
+    common = dict(defines=defs, tier=tier, solver="kissat", unwind=33, kind="proof", shared_tags=True,
                   bound="table order %d (all loops have constant bounds <= 32, unwinding assertions on)" % order,
                   assumes=["hash functions replaced by an uninterpreted function into [0,2^order) (real ones: unit ht.hash)",
                            "contract enforced by hand-instrumented harness (assume PRE / assert POST), not by --dfcc (timeout)"])
@@ -207,7 +207,7 @@ unit("bs.read_until", ["C09"], "units/bs.c", entry="h_bs_read_until", functions=
 # ------------------------------------------------------------------------------------------
 # the model's Delete/Duplicate chains: siblings per level are few in every unit; a tight per-loop bound keeps the
 # nested unrolling small (unwinding assertions still check it)
-CJ_UNWIND = ["cj_delete_0.0:4", "cj_delete_1.0:4", "cj_delete_2.0:5", "cj_delete_3.0:5", "cj_dup_0.0:4", "cj_dup_1.0:4", "cj_dup_2.0:4"]
+CJ_UNWIND = ["cj_delete_0.0:6", "cj_delete_1.0:6", "cj_delete_2.0:5", "cj_delete_3.0:5", "cj_dup_0.0:4", "cj_dup_1.0:4", "cj_dup_2.0:4"]
 CJ_ASSUME = ["cJSON: executable model stubs/cjson_model.h (assumed contract of the vendored library)"]
 for _h, _fns in (("error", ["create_error_response", "create_error_object", "create_common_response", "add_subobject_to_object"]),
                  ("result", ["create_result_response", "create_common_response"]),
@@ -263,14 +263,31 @@ for _h, _props, _fns, _tags in (
         ("timeout", ["C14", "C03", "C07", "C06"], ["request_timeout_handler", "create_error_response"], ["C14.timeout.caller-gets-exactly-one-timeout-error-with-its-id"]),
         ("ownerdown", ["C03", "C05", "C07", "C06"], ["remove_routing_info_from_peer", "clear_routing_entry", "send_shutdown_response"], ["C03.ownerdown.each-caller-with-an-id-gets-exactly-one-shutdown-error", "C03.ownerdown.table-empty-afterwards"]),
         ("bystander", ["C03", "C05", "C07", "C06"], ["remove_peer_from_routing_table", "clear_routing_entry"], ["C03.bystander.requests-of-other-callers-are-untouched"]),
+        ("alloc", ["C03", "C06"], ["alloc_routing_request", "fill_routed_request_id", "calculate_size_for_routed_request_id"], ["C03.alloc.consecutive-requests-get-different-counter-values"]),
         ("setup", ["C03", "C14", "C07", "C06"], ["setup_routing_information"], ["C03.setup.refused-request-is-not-registered", "C14.setup.deadline-is-the-requests-timeout-else-the-elements"])):
-    for _sh, _nm in (((1, "c1"), (2, "c1c1"), (2 | 8, "c1c2")) if _h != "setup" else ((0, "empty"), (1, "c1"))):
+    for _sh, _nm in (((1, "c1"), (2, "c1c1"), (2 | 8, "c1c2")) if _h not in ("setup", "alloc") else (((0, "empty"), (1, "c1")) if _h == "setup" else ((0, "empty"),))):
         _c = dict(RT_COMMON, defines=["RT_SHAPE=%d" % _sh])
         if _h in ("ownerdown", "bystander"):
             # the sweeps visit every slot: a 2-slot table keeps them small and still has a "last slot"
             _c = dict(_c, cfg="rt1", bound="routing table of 2 slots (order 1) holding <= 2 in-flight requests from 2 callers")
         unit("rt.%s.%s" % (_h, _nm), _props, "units/u_router.c", entry="h_rt_" + _h, functions=_fns, expect_tags=_tags, **_c)
 
+
+# ------------------------------------------------------------------------------------------
+# C01 / C11 subscription bookkeeping and event delivery (fetch.c)
+# ------------------------------------------------------------------------------------------
+FX_COMMON = dict(unwind=10, cbmc_unwindset=CJ_UNWIND + ["cj_name_eq_nocase.0:12", "strcmp.0:8", "strlen.0:12", "memcpy.0:12"], solver="cadical", kind="proof", flags=["--memory-leak-check"], timeout=600,
+                 goto_instrument_args=["--value-set-fi-fp-removal"],
+                 bound="subscription tables of 3-4 slots, 3 subscribing peers whose sockets fail in any combination, one-character paths",
+                 assumes=CJ_ASSUME + ["send_message: succeeds or fails per peer (arbitrary)", "fetch rules: fetch-all (rule matching itself is C16)"])
+unit("fx.notify", ["C01", "C11", "C06"], "units/u_fetch.c", entry="h_fx_notify", functions=["notify_fetchers", "notify_fetching_peer"],
+     expect_tags=["C11.notify.every-subscriber-is-sent-the-event-once-whatever-happens-to-the-others", "C01.notify.event-carries-fetch-id-path-event-and-current-value"], **FX_COMMON)
+unit("fx.subscribe", ["C01", "C15", "C06"], "units/u_fetch.c", entry="h_fx_subscribe", functions=["add_fetch_to_state"],
+     expect_tags=["C01.subscribe.fetch-added-once-other-subscriptions-kept"], **FX_COMMON)
+unit("fx.addnotify", ["C01", "C08", "C06"], "units/u_fetch.c", entry="h_fx_addnotify", functions=["add_fetch_to_state_and_notify", "state_matches", "add_fetch_to_state", "notify_fetching_peer"],
+     expect_tags=["C08.fetch.element-without-a-shared-fetch-group-is-invisible", "C01.fetch.matching-visible-element-is-subscribed-and-announced-once"], **FX_COMMON)
+unit("fx.dropall", ["C05", "C01", "C06"], "units/u_fetch.c", entry="h_fx_dropall", functions=["remove_all_fetchers_from_peer", "remove_fetch_from_states", "remove_fetch_from_states_in_peer", "remove_fetch_from_state", "free_fetch"],
+     expect_tags=["C05.fetch.no-element-mentions-a-released-fetch"], **FX_COMMON)
 
 # ------------------------------------------------------------------------------------------
 # C08 access control (peer.c, groups.c, authenticate.c, linux_io.c)
